@@ -24,7 +24,7 @@ CXXFLAGS = ['-std=c++14', '-msse4', '-nostdinc++', '-I' + os.path.join(VERIF, 's
             '-fno-unroll-loops', '-Wno-everything']
 CBMC_BASE = ['--unwinding-assertions', '--drop-unused-functions', '--pointer-check', '--bounds-check',
              '--no-malloc-may-fail', '--object-bits', '10', '--sat-solver', 'cadical']
-NCPU = int(os.environ.get('VERIF_JOBS', '16'))
+NCPU = int(os.environ.get('VERIF_JOBS', '12'))     # 12 solver processes at a time: 62 GB of RAM shared by memory-hungry SAT instances
 
 
 class InternalError(Exception):
